@@ -7,8 +7,8 @@
     reachable configuration. *)
 From GV Require Export Conc.Ops Conc.Run.
 From GV Require Export Conc.ProofsSem Conc.ProofsIds Conc.ProofsTm Conc.ProofsBuf Conc.ProofsRdf Conc.ProofsLock Conc.ProofsSeq Conc.ProofsAll.
-From Coq Require Import ZArith List Bool Sorted.
-Import ListNotations.
+From Coq Require Export ZArith List Bool Sorted.
+Export ListNotations.
 Open Scope Z_scope.
 
 Theorem ids_unique : forall g0 progs sched,
